@@ -1,26 +1,29 @@
 import Refine.Lemmas.UgridC20
-import Refine.Lemmas.UgridPartRead
+import Refine.Lemmas.UgridOwner
 
 /-!
   C20 — malformed input is rejected cleanly: the binary UGRID readers.
 
-  `decodeUgrid` (= `decodeUgridWith ugridCfg`) is the *faithful* model of `ref_import_bin_ugrid` as it is in /repo
-  today (tied by the `c20_ugrid_mut` stream: C status and grid dump = model status and dump on every mutant):
-    * every `fread` is checked → `REF_FAILURE` on a short file; the buffers it allocates are bounded by 64 MB;
+  `decodeUgrid` (= `decodeUgridWith ugridCfg`) models `ref_import_bin_ugrid`, `partRead` (= `partReadWith ugridCfg`)
+  models `ref_part_bin_ugrid`, as they are in /repo today, i.e. since commit 6682479 "reject UGRID cells whose vertex
+  index is outside 1..nnode" (tied by the `c20_ugrid_mut` stream: C status and grid dump = model status and dump on
+  every mutant):
+    * every `fread` is checked → `REF_FAILURE` on a short file; the serial reader's buffers are bounded by 64 MB;
     * a section with a count ≤ 0 is skipped; a negative `nnode` is `REF_FAILURE` (`ref_malloc` of a negative size);
-    * node index ≤ 0 → `REF_INVALID` (`ref_adj_add`); **no comparison of a node index with `nnode`**.
-  `partRead` is the faithful model of `ref_part_bin_ugrid`: same `fread` checks, but **no index check at all** — the
-  first node of every cell goes through `ref_part_implicit` and indexes `elements_to_send[]`; outside `1..nnode` (or
-  with `nnode = 0`, a division by zero) the model has no status (`Status.undefined`).
-  Where the C lacks the check the obligation is false of the faithful model: the `*_counterexample` theorems prove the
-  negation on a concrete 44..140-byte file; the same bytes are replayed against the real readers by `./check C20`
-  (stream `c20_ugrid_index`; findings/ugrid-vertex-index-unchecked).  The positive statement is proved for the reader
-  variant `ugridCfgFixed` (the maintainer-style repair: `1 ≤ index ≤ nnode` per connectivity entry, as commit 92cf05c
-  did for meshb), which still round-trips every well-formed mesh.
+    * serial: `c2n < 1 || nnode < c2n` on the 1-based value, before the decrement → `REF_INVALID`;
+    * parallel: after `pack_cell`, every node entry of every row of the chunk `< 0 || nnode <= value` → `REF_INVALID`,
+      before `ref_part_implicit` is evaluated (so a file with cells and `nnode = 0` is refused too).
+  `accepted_indices_in_range` / `part_accepted_indices_in_range` hold at full strength for these readers.
+  HISTORY: before 6682479 (`ugridCfgLegacy`) no UGRID reader compared an index with `nnode`; the `legacy_*` theorems keep
+  the Lean proofs that the obligation was FALSE of those readers on concrete 44..140-byte files (finding
+  ugrid-vertex-index-unchecked, now `fixed`); the same bytes are regression ops of stream `c20_ugrid_index`.
+  STILL OPEN (known findings): `part_count_overflow_counterexample` — declared counts enter `int` / `long` arithmetic in
+  the parallel reader before anything is checked (ugrid-part-count-overflow).
 -/
 namespace Refine.Props.C20Ugrid
 open Refine.Gen Refine.Model.Ugrid Refine.Lemmas.Ugrid
 open Refine.Model.Meshb (Bytes Status Vertex Cfg)
+
 
 /-! ### witness files (all `.lb8.ugrid`) -/
 
@@ -62,7 +65,7 @@ theorem decode_total (cfg : Cfg) (fl : Flavor) (bs : Bytes) :
 
 /-! ### declared counts -/
 
-/-- FAITHFUL and FIXED serial reader, every flavour: an accepted file contains every record it declares — header,
+/-- serial reader, every variant and flavour: an accepted file contains every record it declares — header,
     `nnode` coordinate triples, and per kind `count × node_per` (+ `count` tags) integers of the flavour's width fit in
     the bytes present (all `fread`s of ref_import_bin_ugrid are checked; nothing is sized by a count alone beyond the
     64 MB chunk buffers) -/
@@ -74,39 +77,81 @@ theorem accepted_counts_fit (cfg : Cfg) (fl : Flavor) (bs : Bytes) (m : UMesh) (
 
 /-! ### node indices -/
 
-/-- FAITHFUL serial reader (partial form of `accepted_indices_in_range`): every node index of an accepted cell is
-    ≥ 0, i.e. ≥ 1 in the file — the only thing `ref_adj_add` checks.  The upper bound is NOT checked, see below. -/
-theorem accepted_indices_in_range_partial (cfg : Cfg) (fl : Flavor) (bs : Bytes) (m : UMesh)
+/-- **accepted_indices_in_range**, serial reader (as in /repo since 6682479), every flavour: every node index of every
+    accepted cell is in `[0, nnode)`, i.e. `1..nnode` in the file -/
+theorem accepted_indices_in_range (fl : Flavor) (bs : Bytes) (m : UMesh)
+    (h : decodeUgrid fl bs = .ok m) : indicesInRange m = true := by
+  rw [indicesInRange_iff]
+  obtain ⟨_, h1, h2⟩ := decode_ok (by decide) h
+  exact fun k c hc x hx => ⟨h1 k c hc x hx, h2 rfl k c hc x hx⟩
+
+/-- **part_accepted_indices_in_range**, parallel reader (as in /repo since 6682479), every flavour, rank count and chunk
+    size: an accepted read holds six cell lists, exactly `nnode` vertices, and every node entry of every stored cell is
+    in `[0, nnode)` -/
+theorem part_accepted_indices_in_range (fl : Flavor) (np : Nat) (chunk : Option Nat) (bs : Bytes) (pm : PartMesh)
+    (h : partRead fl np chunk bs = .ok pm) :
+    pm.cells.length = 6 ∧ pm.nodes.length = pm.nnode.toNat ∧
+    ∀ p ∈ Kind.all.zip pm.cells, ∀ c ∈ p.2, ∀ x ∈ c.take p.1.nodePer, 0 ≤ x ∧ x < pm.nnode :=
+  partRead_ok h
+
+/-- … and it is the reader's own test that guarantees it: with the index check, the chunk loop of
+    ref_part_bin_ugrid_cell only ever returns rows whose node entries are in `[0, nnode)`, so `ref_part_implicit` is
+    never evaluated on anything else (the model's `Status.undefined` fall-through is not reached through an index) -/
+theorem part_rows_checked_before_routing (fl : Flavor) (bs : Bytes) (k : Kind) (nnode co fo : Int)
+    (chunk fuel ncell r : Nat) (cs : List (List Int))
+    (h : partCellLoop ugridCfg fl bs k nnode co fo chunk fuel ncell r = .ok cs) :
+    cs.all (partIndexOk k nnode) = true :=
+  partCellLoop_checked rfl h
+
+/-- the four files of the finding are refused with `REF_INVALID` by both readers now -/
+theorem index_witnesses_refused :
+    decodeUgrid lb8 indexFile = .error .invalid ∧ decodeUgrid lb8 indexCrashFile = .error .invalid ∧
+    partRead lb8 1 none indexFile = .error .invalid ∧ partRead lb8 1 none indexCrashFile = .error .invalid ∧
+    partRead lb8 1 none partIndexFile = .error .invalid ∧ decodeUgrid lb8 partIndexFile = .error .invalid ∧
+    partRead lb8 1 none partDiv0File = .error .invalid ∧ decodeUgrid lb8 partDiv0File = .error .invalid := by
+  decide +kernel
+
+/-- the check costs nothing: every well-formed mesh a writer laid out is still returned (C08) -/
+theorem checked_reader_roundtrip (fl : Flavor) (m : UMesh) (hw : WellFormed m = true) :
+    decodeUgrid fl (encodeUgrid fl m) = .ok (normalize m) :=
+  decode_encodeRaw ugridCfg rfl _ (by decide) fl (normalize m) (wf_normalize hw)
+
+/-! ### history: the readers before 6682479 -/
+
+/-- LEGACY serial reader: every node index of an accepted cell is ≥ 0 (≥ 1 in the file) — all `ref_adj_add`
+    checked; holds for every reader variant -/
+theorem legacy_accepted_indices_nonneg (cfg : Cfg) (fl : Flavor) (bs : Bytes) (m : UMesh)
     (h : decodeUgridWith cfg fl bs = .ok m) : ∀ k : Kind, ∀ c ∈ m.get k, ∀ x ∈ c.take k.nodePer, 0 ≤ x :=
   (decode_ok (by decide) h).2.1
 
-/-- FAITHFUL serial reader: a file is accepted although a tet refers to vertex 6 of 4 -/
-theorem accepted_indices_in_range_counterexample :
-    ∃ m, decodeUgrid lb8 indexFile = .ok m ∧ indicesInRange m = false := by
-  have h : (match decodeUgrid lb8 indexFile with | .ok m => !indicesInRange m | .error _ => false) = true := by
-    decide +kernel
-  cases hd : decodeUgrid lb8 indexFile with
-  | error e => simp [hd] at h
-  | ok m => exact ⟨m, rfl, by simpa [hd] using h⟩
+/-- LEGACY serial reader: a file was accepted although a tet refers to vertex 6 (or 50 000 001) of 4 -/
+theorem legacy_accepted_indices_in_range_counterexample :
+    (∃ m, decodeUgridWith ugridCfgLegacy lb8 indexFile = .ok m ∧ indicesInRange m = false) ∧
+    (∃ m, decodeUgridWith ugridCfgLegacy lb8 indexCrashFile = .ok m ∧ indicesInRange m = false) := by
+  have h1 : (match decodeUgridWith ugridCfgLegacy lb8 indexFile with
+      | .ok m => !indicesInRange m | .error _ => false) = true := by decide +kernel
+  have h2 : (match decodeUgridWith ugridCfgLegacy lb8 indexCrashFile with
+      | .ok m => !indicesInRange m | .error _ => false) = true := by decide +kernel
+  constructor
+  · cases hd : decodeUgridWith ugridCfgLegacy lb8 indexFile with
+    | error e => simp [hd] at h1
+    | ok m => exact ⟨m, rfl, by simpa [hd] using h1⟩
+  · cases hd : decodeUgridWith ugridCfgLegacy lb8 indexCrashFile with
+    | error e => simp [hd] at h2
+    | ok m => exact ⟨m, rfl, by simpa [hd] using h2⟩
 
-/-- … with any size of index: the replay file (vertex 50 000 001 of 4) is accepted too -/
-theorem accepted_indices_in_range_counterexample_replay :
-    ∃ m, decodeUgrid lb8 indexCrashFile = .ok m ∧ indicesInRange m = false := by
-  have h : (match decodeUgrid lb8 indexCrashFile with | .ok m => !indicesInRange m | .error _ => false) = true := by
-    decide +kernel
-  cases hd : decodeUgrid lb8 indexCrashFile with
-  | error e => simp [hd] at h
-  | ok m => exact ⟨m, rfl, by simpa [hd] using h⟩
-
-/-- FAITHFUL parallel reader: nothing stands between a first vertex outside `1..nnode` and
-    `elements_to_send[ref_part_implicit(..)]++` — `ref_part_implicit(4, 1, 4) = 1` is not a rank of a 1-rank run;
-    with `nnode = 0` the macro divides by the part size 0.  The model has no status for these files. -/
-theorem part_index_unchecked_counterexample :
-    PartMacros.ref_part_implicit 4 1 4 = 1 ∧ partRead lb8 1 none partIndexFile = .error .undefined ∧
-    PartMacros.ref_part_large_part_size 0 1 = 0 ∧ partRead lb8 1 none partDiv0File = .error .undefined := by
+/-- LEGACY parallel reader: nothing stood between a first vertex outside `1..nnode` and
+    `elements_to_send[ref_part_implicit(..)]++` — `ref_part_implicit(4, 1, 4) = 1` is not a rank of a 1-rank run; with
+    `nnode = 0` the macro divides by the part size 0.  The legacy model has no status for these files. -/
+theorem legacy_part_index_unchecked_counterexample :
+    PartMacros.ref_part_implicit 4 1 4 = 1 ∧ partReadWith ugridCfgLegacy lb8 1 none partIndexFile = .error .undefined ∧
+    PartMacros.ref_part_large_part_size 0 1 = 0 ∧
+    partReadWith ugridCfgLegacy lb8 1 none partDiv0File = .error .undefined := by
   decide +kernel
 
-/-- FAITHFUL parallel reader: the declared counts enter `int` / `long` arithmetic before any byte of the sections is
+/-! ### declared counts in the parallel reader (open) -/
+
+/-- parallel reader (today): the declared counts enter `int` / `long` arithmetic before any byte of the sections is
     looked at — `size_per * chunk` with `chunk = MAX(1000000, ncell / nproc)` overflows `int` for 2^31-1 declared tets;
     `ref_part_first(nnode, nproc, 1)` forms `nnode + nproc` in `long` for 2^63-1 declared vertices.  The serial reader
     returns `REF_FAILURE` on the first of these files (short read) -/
@@ -115,30 +160,26 @@ theorem part_count_overflow_counterexample :
     decodeUgrid lb8 countIntFile = .error .failure := by
   decide +kernel
 
-/-- FIXED serial reader (`1 ≤ index ≤ nnode` per connectivity entry): every node index of every accepted cell is in
-    `[0, nnode)` -/
-theorem accepted_indices_in_range (fl : Flavor) (bs : Bytes) (m : UMesh)
-    (h : decodeUgridWith ugridCfgFixed fl bs = .ok m) : indicesInRange m = true := by
-  rw [indicesInRange_iff]
-  obtain ⟨_, h1, h2⟩ := decode_ok (by decide) h
-  exact fun k c hc x hx => ⟨h1 k c hc x hx, h2 rfl k c hc x hx⟩
+/-- 4 vertices, one tet (1,2,3,4): a valid 140-byte file -/
+def okFile : Bytes := ofHex
+  "04000000000000000000000001000000000000000000000000000000000000000000000000000000000000000000000000000000000000000000f03f000000000000000000000000000000000000000000000000000000000000f03f000000000000000000000000000000000000000000000000000000000000f03f01000000020000000300000004000000"
 
-example : decodeUgridWith ugridCfgFixed lb8 indexFile = .error .invalid ∧
-    decodeUgridWith ugridCfgFixed lb8 indexCrashFile = .error .invalid := by decide +kernel
-
-/-- the repair costs nothing: the FIXED reader still returns every well-formed mesh a writer laid out -/
-theorem fixed_reader_roundtrip (fl : Flavor) (m : UMesh) (hw : WellFormed m = true) :
-    decodeUgridWith ugridCfgFixed fl (encodeUgrid fl m) = .ok (normalize m) :=
-  decode_encodeRaw ugridCfgFixed rfl _ (by decide) fl (normalize m) (wf_normalize hw)
-
-/-- non-vacuity of `accepted_counts_fit` / `accepted_indices_in_range_partial`: the faithful reader accepts
-    `indexFile` (140 bytes = 7·4 + 4·24 + 4·4) -/
-example : ∃ m, decodeUgrid lb8 indexFile = .ok m ∧ m.tet.length = 1 ∧ m.nodes.length = 4 ∧ indexFile.length = 140 := by
-  have h : (match decodeUgrid lb8 indexFile with
-      | .ok m => m.tet.length == 1 && m.nodes.length == 4 && indexFile.length == 140 | .error _ => false) = true := by
+/-- non-vacuity of `accepted_counts_fit` / `accepted_indices_in_range` / `part_accepted_indices_in_range`: both readers
+    accept `okFile` (140 bytes = 7·4 + 4·24 + 4·4) -/
+example : (∃ m, decodeUgrid lb8 okFile = .ok m ∧ m.tet = [[0, 1, 2, 3]] ∧ m.nodes.length = 4 ∧ okFile.length = 140) ∧
+    (∃ pm, partRead lb8 3 (some 1) okFile = .ok pm ∧ pm.cells.getD 2 [] = [[0, 1, 2, 3]] ∧ pm.nnode = 4) := by
+  have h : (match decodeUgrid lb8 okFile with
+      | .ok m => m.tet == [[0, 1, 2, 3]] && m.nodes.length == 4 && okFile.length == 140 | .error _ => false) = true := by
     decide +kernel
-  cases hd : decodeUgrid lb8 indexFile with
-  | error e => simp [hd] at h
-  | ok m => exact ⟨m, rfl, by simpa [hd, and_assoc] using h⟩
+  have h' : (match partRead lb8 3 (some 1) okFile with
+      | .ok pm => pm.cells.getD 2 [] == [[0, 1, 2, 3]] && pm.nnode == 4 | .error _ => false) = true := by
+    decide +kernel
+  constructor
+  · cases hd : decodeUgrid lb8 okFile with
+    | error e => simp [hd] at h
+    | ok m => exact ⟨m, rfl, by simpa [hd, and_assoc] using h⟩
+  · cases hd : partRead lb8 3 (some 1) okFile with
+    | error e => simp [hd] at h'
+    | ok pm => exact ⟨pm, rfl, by simpa [hd] using h'⟩
 
 end Refine.Props.C20Ugrid
